@@ -418,6 +418,18 @@ func coqFraming(p Params) string {
 	return fmt.Sprintf("(mkFr %s %d %s)", b2c(f[0] == 1), f[1], b2c(f[2] == 1))
 }
 
+// coqTimeouts renders the request/response timeouts of the proxy instance the scenario went through
+// (ns; idle, read, read-header, write).  net/http's Hijack clears the deadlines itself.
+func coqTimeouts(p Params) string {
+	switch {
+	case p.Handler:
+		return "(mkTmo 0 0 0 0)"
+	case p.ReadTimeoutMs > 0:
+		return fmt.Sprintf("(mkTmo %d %d %d %d)", int64(idleTimeoutMs)*1e6, int64(readTimeoutMs)*1e6, int64(readTimeoutMs)*1e6, int64(writeTimeoutMs)*1e6)
+	}
+	return fmt.Sprintf("(mkTmo %d 0 %d 0)", int64(3600)*1e9, int64(60)*1e9) // DefaultHTTPProxyConfig
+}
+
 func coqCase(o outcome, graceNs int64) string {
 	p := o.res.P
 	var sb strings.Builder
@@ -429,11 +441,11 @@ func coqCase(o outcome, graceNs int64) string {
 		tr := fmt.Sprintf("(%s %s)", fn, hexChunks(traceString(o.built.Labels, p.Concrete)))
 		ok := len(o.built.Problems) == 0
 		if p.Concrete {
-			fmt.Fprintf(&sb, "{| cc_mode := %d; cc_wellformed := %s; cc_grace := (%d)%%Z; cc_fr := %s; cc_early := %s; cc_skip := %s; cc_kept := %s;\n   cc_trace := %s;\n   cc_obs := %s |}",
-				modeN(p.Mode), b2c(ok), graceNs, coqFraming(p), hexs(o.built.Early), hexs(o.built.Skip), hexs(o.built.Kept), tr, coqObs(o, true))
+			fmt.Fprintf(&sb, "{| cc_mode := %d; cc_wellformed := %s; cc_grace := (%d)%%Z; cc_fr := %s; cc_tmo := %s; cc_treq := (%d)%%Z; cc_tresp := (%d)%%Z; cc_early := %s; cc_skip := %s; cc_kept := %s;\n   cc_trace := %s;\n   cc_obs := %s |}",
+				modeN(p.Mode), b2c(ok), graceNs, coqFraming(p), coqTimeouts(p), o.built.TReq, o.built.TResp, hexs(o.built.Early), hexs(o.built.Skip), hexs(o.built.Kept), tr, coqObs(o, true))
 		} else {
-			fmt.Fprintf(&sb, "{| ac_mode := %d; ac_wellformed := %s; ac_grace := (%d)%%Z; ac_fr := %s; ac_early := %d; ac_skip := %d; ac_kept := %d;\n   ac_trace := %s;\n   ac_obs := %s |}",
-				modeN(p.Mode), b2c(ok), graceNs, coqFraming(p), o.built.EarlyN, o.built.SkipN, o.built.KeptN, tr, coqObs(o, false))
+			fmt.Fprintf(&sb, "{| ac_mode := %d; ac_wellformed := %s; ac_grace := (%d)%%Z; ac_fr := %s; ac_tmo := %s; ac_treq := (%d)%%Z; ac_tresp := (%d)%%Z; ac_early := %d; ac_skip := %d; ac_kept := %d;\n   ac_trace := %s;\n   ac_obs := %s |}",
+				modeN(p.Mode), b2c(ok), graceNs, coqFraming(p), coqTimeouts(p), o.built.TReq, o.built.TResp, o.built.EarlyN, o.built.SkipN, o.built.KeptN, tr, coqObs(o, false))
 		}
 		return sb.String()
 	}
@@ -442,7 +454,7 @@ func coqCase(o outcome, graceNs int64) string {
 
 const shardHead = `From Coq Require Import List NArith ZArith String.
 From FwdLib Require Import Bytes.
-From G03 Require Import Tables Tunnel Abstract ReplyReader Check.
+From G03 Require Import Tables Tunnel Abstract ReplyReader Deadlines Check.
 Import ListNotations.
 Open Scope N_scope.
 `
